@@ -106,6 +106,9 @@ contract(
 contract(
     G, "Generator._replace_line_breaks", props=["C04", "C07"],
     types={"string": "str"},
-    ensures=["implies(not truthy(self.pretty), result == string)"],
+    # outside pretty mode the text is untouched; in pretty mode the ONLY rewrite is LF -> sentinel, the exact inverse of what
+    # generate() does at the end (so CR, CR LF and every other character of a literal / identifier reach the output)
+    ensures=["implies(not truthy(self.pretty), result == string)",
+             "implies(truthy(self.pretty), result == string.replace('\\n', self.SENTINEL_LINE_BREAK))"],
     modifies=[],
 )
